@@ -838,8 +838,8 @@ def warm(args):
 
 
 def plan(tier, seed, args):
-    n = args.cases if args.cases is not None else (140 if tier == "quick" else 30000)
-    every = 8 if tier == "quick" else 12
+    n = args.cases if args.cases is not None else (480 if tier == "quick" else 30000)
+    every = 24 if tier == "quick" else 12
     return [{"kind": "history", "seed": derive(seed, PROP, i) % (10**9), "restart": i % every == 0} for i in range(n)]
 
 
